@@ -86,7 +86,8 @@ Definition step (st : rstate) (op : list tok) : rstate * list tok :=
   let d := rf st in
   match op with
   | TS name :: args =>
-    if name =? "dec" then
+    if name =? "blackbox" then (st, [])   (* a black-box scenario: replayed by the driver, nothing to model *)
+    else if name =? "dec" then
       match args with [TN mx; TB bs] => (st, dec_toks bs (zn mx)) | _ => bad end
     else if name =? "sdec" then
       match args with [TB bs; TN a] => (st, sdec_toks bs (Z.eqb a 1)) | _ => bad end
